@@ -25,7 +25,7 @@ RULE = ("annotations from grammar U (every sub-annotation of every generated pro
         "node-sequence shape; non-trivial = more than one node")
 ASSUMPTIONS = [
     "member lists are computed by the harness from typing.get_args / typing.get_type_hints; Any, TypeVars, Ellipsis and empty are exempt; Literal arguments are values",
-    "extra nodes are allowed; the spelling-equivalence clause is only demanded when the root type does not recur inside its own graph",
+    "extra nodes are allowed",
     "a step budget (sys.monitoring PY_START events) decides termination; wall-clock is only a watchdog",
 ]
 PLAN = {"quick": dict(programs=500, topologies=1400, depth=3), "thorough": dict(programs=12000, topologies=40000, depth=5)}
@@ -123,9 +123,10 @@ def recurs(nodes, root):
 
 def equivalence(sh, prog_or_topo, label, src, T, nodes, steps):
     """String / ForwardRef / NewType / alias spellings give the same sequence up to the root label."""
-    if nodes is None or recurs(nodes, T):
-        sh.count("equivalence_skipped_recursive")
+    if nodes is None:
         return
+    if recurs(nodes, T):
+        sh.count("equivalences_of_recursive_roots")
     if typing.get_origin(T) in (typing.Final, typing.ClassVar):
         return  # a qualifier is not a type: it cannot be aliased / NewType'd / referenced
     mod = prog_or_topo.module
